@@ -224,7 +224,9 @@ pub fn trace_validity<C: Fc>(circuit: &Circuit<C::EF>, t: &Traces<C::EF>) -> Vec
             _ => None,
         })
         .collect();
-    if publics.len() != t.public_trace.values.len() {
+    // an empty table is padded with one dummy row (all selectors / multiplicities zero)
+    let public_dummy = publics.is_empty() && t.public_trace.values.len() == 1;
+    if !public_dummy && publics.len() != t.public_trace.values.len() {
         inv("public-count", "number of public rows differs".into());
         return found.into_inner();
     }
@@ -237,7 +239,8 @@ pub fn trace_validity<C: Fc>(circuit: &Circuit<C::EF>, t: &Traces<C::EF>) -> Vec
         .iter()
         .filter(|op| matches!(op, Op::Alu { .. }))
         .collect();
-    if alu_ops.len() != t.alu_trace.values.len() {
+    let alu_dummy = alu_ops.is_empty() && t.alu_trace.values.len() == 1;
+    if !alu_dummy && alu_ops.len() != t.alu_trace.values.len() {
         inv("alu-count", "number of ALU rows differs".into());
         return found.into_inner();
     }
